@@ -9,7 +9,7 @@ use crate::AnyNode;
 use nom_recursive::RecursiveInfo;
 use std::cell::{Cell, RefCell};
 use std::collections::{HashMap, VecDeque};
-use std::sync::atomic::{AtomicUsize, Ordering};
+use std::sync::atomic::{AtomicPtr, AtomicUsize, Ordering};
 
 // ----------------------------------------------------------------------------
 // H2: packrat storage wrapper
@@ -176,12 +176,12 @@ thread_local!(
 );
 
 static SEQ: AtomicUsize = AtomicUsize::new(0);
-static YIELD_HOOK: AtomicUsize = AtomicUsize::new(0);
+static YIELD_HOOK: AtomicPtr<()> = AtomicPtr::new(std::ptr::null_mut());
 
 /// Install a process-wide callback that is called at every hook event
 /// (`None` removes it).  Used to inject scheduling noise.
 pub fn set_yield_hook(f: Option<fn(EventKind)>) {
-    YIELD_HOOK.store(f.map(|f| f as usize).unwrap_or(0), Ordering::SeqCst);
+    YIELD_HOOK.store(f.map(|f| f as *mut ()).unwrap_or(std::ptr::null_mut()), Ordering::SeqCst);
 }
 
 pub fn set_event_log(on: bool) {
@@ -194,9 +194,10 @@ pub fn take_event_log() -> Vec<Event> {
 }
 
 pub(crate) fn event(kind: EventKind, depth: usize) {
-    let h = YIELD_HOOK.load(Ordering::Relaxed);
-    if h != 0 {
-        let f: fn(EventKind) = unsafe { std::mem::transmute(h) };
+    let h = YIELD_HOOK.load(Ordering::Acquire);
+    if !h.is_null() {
+        // stored from a `fn(EventKind)` in set_yield_hook; kept as a pointer so that it keeps its provenance
+        let f: fn(EventKind) = unsafe { std::mem::transmute::<*mut (), fn(EventKind)>(h) };
         f(kind);
     }
     if LOG_ON.with(|x| x.get()) {
